@@ -64,7 +64,7 @@ mod h {
         let line_offsets = TextDocument::calculate_line_offsets(s);
         TextDocument { version: 1, uri: String::new(), content: String::from(s), line_offsets }
     }
-    fn any_pos() -> Position { Position { line: kani::any(), character: kani::any() } }
+    fn any_pos() -> Position { Position { line: (kani::any::<u8>() % 8) as u32, character: (kani::any::<u8>() % 8) as u32 } }
     // ghost record of the contract stubs of String::replace_range / String::clone_from
     static mut REC: (u8, usize, usize) = (0, 0, 0);
     /// CONTRACT STUB of String::replace_range(start..end, with): precondition start <= end <= len, both on char boundaries
@@ -115,11 +115,9 @@ INST = r'''
             k += 1;
         }
     }
-    #[kani::proof] #[kani::unwind(@U@)]
-    #[kani::stub(std::string::String::replace_range, replace_range_stub)]
-    fn apply_len@LEN@() {
-        let mut k = 0;
-        while k < @K@ {
+    fn apply_docs_len@LEN@(lo: usize, hi: usize) {
+        let mut k = lo;
+        while k < hi {
             let b = DOCS_@LEN@[k];
             let s = unsafe { core::str::from_utf8_unchecked(&b) };
             let mut d = doc_of(s);
@@ -196,10 +194,15 @@ def build(tier):
         b = ("all %d documents of exactly %d bytes made of 'a', LF, CR, U+00E9 (2 bytes), U+20AC (3 bytes), U+1F600 (4 bytes, 2 UTF-16 units)" % (len(ds), n)) if kind == "all" else \
             ("a catalogue of %d documents of %d bytes: %s" % (len(ds), n, ", ".join(repr(bytes(d).decode()) for d in ds)))
         obs.append(vf.Ob("offsets_len%d" % n, "C23", complete=False, bound=b, what="calculate_line_offsets == the protocol's line starts (LF, CRLF, CR)"))
-        obs.append(vf.Ob("index_len%d" % n, "C23", complete=False, bound=b + "; every (u32 line, u32 character)",
+        obs.append(vf.Ob("index_len%d" % n, "C23", complete=False, bound=b + "; every position with line < 8 and character < 8 (beyond the text both clamp)",
                          what="position_to_index == byte offset of the UTF-16 position, clamped to the line end; always a char boundary"))
-        obs.append(vf.Ob("apply_len%d" % n, "C23", complete=False, bound=b + "; every range of two (u32, u32) positions",
-                         what="apply_change: Ok => exactly one replace_range(spec_index(start)..spec_index(end)) on char boundaries, version+1; Err <=> start after end, document untouched; no panic"))
+        groups = [(0, len(ds))] if n == 1 else [(i, i + 1) for i in range(len(ds))]
+        for (lo, hi) in groups:
+            nm = "apply_len%d" % n if n == 1 else "apply_len%d_d%d" % (n, lo)
+            hs.append("    #[kani::proof] #[kani::unwind(%d)] #[kani::stub(std::string::String::replace_range, replace_range_stub)] fn %s() { apply_docs_len%d(%d, %d) }" % (len(ds) + 12, nm, n, lo, hi))
+            bb = b if n == 1 else "the document %r (%d bytes)" % (bytes(ds[lo]).decode(), n)
+            obs.append(vf.Ob(nm, "C23", complete=False, bound=bb + "; every range of two positions with line < 8 and character < 8",
+                             what="apply_change: Ok => exactly one replace_range(spec_index(start)..spec_index(end)) on char boundaries, version+1; Err <=> start after end, document untouched; no panic"))
     hs.append(r'''
     #[kani::proof] #[kani::unwind(8)]
     #[kani::stub(<std::string::String as std::clone::Clone>::clone_from, clone_from_stub)]
